@@ -34,6 +34,8 @@ class Task:
         self.why = ("start",)
         self.exc = None
         self.result = None
+        self.pending_exc = None
+        self.killed = False
         self.ident = len(sched.tasks) + 1000
         self.thread = threading.Thread(target=self._run, name=f"sim-{name}", daemon=True)
 
@@ -43,6 +45,10 @@ class Task:
             if self.sched.aborting:
                 return
             self.sched._tls.task = self
+            if self.sched.line_funcs:
+                import sys
+
+                sys.settrace(self.sched._global_trace)
             self.result = self.fn(*self.args)
         except SimAbort:
             pass
@@ -138,6 +144,19 @@ class HintChooser(Chooser):
             self.hpos += 1
 
 
+def _in_finalizer():
+    import sys
+
+    f = sys._getframe(2)
+    for _ in range(8):
+        if f is None:
+            return False
+        if f.f_code.co_name == "__del__":
+            return True
+        f = f.f_back
+    return False
+
+
 class Sched:
     def __init__(self, chooser=None, max_steps=20000, post_yields=False):
         self.chooser = chooser or Chooser()
@@ -155,6 +174,21 @@ class Sched:
         self.preemptions = 0
         self._last = None
         self.quiesce_hooks = []  # callables run when nothing is runnable; return True if they made progress
+        self.line_funcs = set()  # names of functions of the code under test that are preemptible at every source line
+        self.trace_files = set()
+
+    # -------------------------------------------- line-level preemption
+    def _global_trace(self, frame, event, arg):
+        if event == "call":
+            code = frame.f_code
+            if code.co_name in self.line_funcs and code.co_filename in self.trace_files:
+                return self._local_trace
+        return None
+
+    def _local_trace(self, frame, event, arg):
+        if event == "line" and not self.aborting:
+            self.yield_(("line", frame.f_code.co_name, frame.f_lineno))
+        return self._local_trace
 
     # ------------------------------------------------------------ tasks
     def me(self) -> Task | None:
@@ -181,7 +215,9 @@ class Sched:
         if t is None:
             # not a task thread (e.g. a finalizer run by the controller): cannot block
             return True
-        if self.aborting:
+        if self.aborting or t.killed:
+            if _in_finalizer():
+                return True
             raise SimAbort()
         t.why = why
         t.cond = cond
@@ -189,11 +225,25 @@ class Sched:
         t.timed_out = False
         self.ctl.release()
         t.go.acquire()
-        if self.aborting:
+        if self.aborting or t.killed:
             raise SimAbort()
         t.cond = None
         t.deadline = None
+        if t.pending_exc is not None:
+            exc, t.pending_exc = t.pending_exc, None
+            raise exc
         return not t.timed_out
+
+    def interrupt(self, task, exc):
+        """deliver an asynchronous exception (a signal) to `task` at its next scheduling point;
+        a blocked task becomes runnable"""
+        task.pending_exc = exc
+
+    def kill_tasks(self, pred):
+        """the 'process' these tasks belong to dies: they unwind at their next scheduling point"""
+        for t in self.tasks:
+            if not t.done and pred(t):
+                t.killed = True
 
     def choice(self, n, why):
         """a data choice (chunk size, ...) decided by the chooser"""
@@ -208,7 +258,7 @@ class Sched:
 
     # ------------------------------------------------------------- run
     def _enabled(self, t):
-        if t.cond is None:
+        if t.cond is None or t.pending_exc is not None or t.killed:
             return True
         try:
             return bool(t.cond())
@@ -251,6 +301,7 @@ class Sched:
             t.go.release()
             self.ctl.acquire()
         blocked = [(t.name, t.why) for t in self.tasks if not t.done]
+        self.final_blocked = blocked
         if self.outcome == "stuck":
             self.observe("stuck", blocked=[{"task": n, "why": list(map(str, w))} for n, w in blocked])
         self.abort()
